@@ -75,7 +75,74 @@ func register(p *Property) {
 	properties[p.ID] = p
 }
 
+func mGroup(groups ...string) func(m *rules.MMethod) bool {
+	return func(m *rules.MMethod) bool {
+		for _, g := range groups {
+			if m.Group == g {
+				return true
+			}
+		}
+		return false
+	}
+}
+
 func init() {
+	register(&Property{
+		ID:        "C07",
+		Technique: "static analysis: abstract interpretation of every option-mode case of the generated engine methods over a symbolic term domain, checked against the mode contract",
+		Explain: "Decides, for each of the generated StdEng arithmetic, comparison, min/max and unary methods (and Clamp) and for every scenario = option mode {safe, unsafe, reuse, incr} x scalar side x result kind x iterator/raw path x {destination distinct, destination aliasing an operand} x {many elements, one element}: which tensor is returned, that its buffer finally holds Op(L,R) of the original operand values in operand order (incr: destination + Op), that no buffer other than the designated destination, fresh tensors and the scalar scratch header is written (M2), and that every buffer is indexed through its own iterator, never a nil or already consumed one (M3). " +
+			"Not decided: that the kernels compute Op (rules K1/K2 of C06/C11/C12 do), that iterators deliver matching coordinates (C05), the hand-written operations' value semantics.",
+		Assume: []string{"the summaries of E-level dispatch (destination = first non-scalar operand; Incr adds; Recv stores) and of storage.Copy/CopyIter/Fill, which rules K1arms/K2 check against the kernels", "sparse operands (swap) are outside the dense properties"},
+		Run: func(rc *rules.RC) {
+			rules.M2(rc, nil, 40, 900)
+		},
+	})
+	kmExplain := func(what, groups string) string {
+		return "Decides exhaustively for " + what + ": (K1) all type specialisations of each kernel template agree after type erasure; (K2/K7) each kernel's guarded updates equal the operator table's term for its operation, variant and type class - operator, operand order, destination, every slice indexed through its own iterator, body guarded by all validity flags; (K1arms/K3) every arm of every dispatcher in internal/execution/" + groups + " uses only constructs of its own label type and agrees with its sibling arms; (K5) every dispatcher refuses unlisted types with an error; (K11) the type-class tables that gate the operations are the sets go/types predicts; (M2/M3) every option-mode case of the generated engine methods returns the designated tensor holding Op(L,R) in operand order and pairs buffers with their own iterators; (M4) type/shape gates dominate every kernel call; (M5) the package functions and Dense methods delegate to the engine method of their own name with operands in order. " +
+			"Not decided: IEEE/overflow behaviour of the Go operator (the kernel provably *is* the Go operator), vecf32/vecf64/math bodies (trusted by name), and that iterators deliver matching coordinates (C05)."
+	}
+	register(&Property{
+		ID:        "C06",
+		Technique: "static analysis: canonical-form comparison of kernels against an operator table and against sibling specialisations; type-token coherence of dispatch arms; abstract interpretation of option-mode cases (AST + go/types)",
+		Explain:   kmExplain("the arithmetic (Add Sub Mul Div Mod Pow) and min/max kernels, dispatchers and engine methods", "eng_arith.go, eng_minmaxbetween.go"),
+		Assume:    []string{"see C07 for the interpreter's summaries"},
+		Run: func(rc *rules.RC) {
+			fams := rules.Families(rc.P)
+			f := groupFilter("arith", "minmax")
+			rules.K1(rc, fams, f, 1200)
+			rules.K2(rc, fams, f, 1200)
+			rules.K3(rc, fileFilter("eng_arith.go", "eng_minmaxbetween.go", "eng_arith_manual.go"), 30, 430)
+			rules.M2(rc, mGroup("arith", "minmax"), 16, 350)
+		},
+	})
+	register(&Property{
+		ID:        "C11",
+		Technique: "static analysis: canonical-form comparison of comparison kernels against an operator table and siblings; type-token coherence of dispatch arms; abstract interpretation of option-mode cases",
+		Explain:   kmExplain("the comparison (Gt Gte Lt Lte Eq Ne) kernels in their bool and same-type forms, dispatchers and engine methods", "eng_cmp.go"),
+		Assume:    []string{"see C07 for the interpreter's summaries"},
+		Run: func(rc *rules.RC) {
+			fams := rules.Families(rc.P)
+			f := groupFilter("cmp")
+			rules.K1(rc, fams, f, 1040)
+			rules.K2(rc, fams, f, 1040)
+			rules.K3(rc, fileFilter("eng_cmp.go"), 24, 345)
+			rules.M2(rc, mGroup("cmp"), 12, 300)
+		},
+	})
+	register(&Property{
+		ID:        "C12",
+		Technique: "static analysis: canonical-form comparison of unary/map kernels against an operator table and siblings; type-token coherence of dispatch arms; abstract interpretation of option-mode cases",
+		Explain:   kmExplain("the unary (Neg Inv Square Cube Abs Sign Clamp Sqrt Cbrt InvSqrt Exp Log Log2 Log10 Tanh) and Map kernels, dispatchers and engine methods", "eng_unary.go, eng_map.go"),
+		Assume:    []string{"see C07 for the interpreter's summaries", "math/math32/cmplx routines are trusted by name"},
+		Run: func(rc *rules.RC) {
+			fams := rules.Families(rc.P)
+			f := groupFilter("unary", "map")
+			rules.K1(rc, fams, f, 340)
+			rules.K2(rc, fams, f, 340)
+			rules.K3(rc, fileFilter("eng_unary.go", "eng_map.go"), 30, 250)
+			rules.M2(rc, mGroup("unary"), 15, 178)
+		},
+	})
 	register(&Property{
 		ID:        "C17",
 		Technique: "static analysis: type-erased canonical forms of all generated specialisations compared within each family (sibling agreement), and type-token coherence of every arm of every type switch, over the type-checked AST",
